@@ -9,7 +9,7 @@ T: random real-valued curves: exact height ranks + per-knee IoU classes from kne
    (bit-exact comparison with t, thresholds harvested from observed IoU values) judged by Trace_Filters."""
 import numpy as np
 
-from harness import curves, numeric, par
+from harness import curves, numeric, par, tlc
 
 FW, FC, SC = "filter_worst_knees", "filter_corner_knees", "select_corner_knees"
 
@@ -174,6 +174,12 @@ def run(ctx):
     ctx.mc("Gen_Filters", "MC_Filters", need_actions=("WorstKeep", "WorstDrop", "Return"))
     beh = ctx.gen("Gen_Filters", "Gen_Filters_quick" if ctx.quick else "Gen_Filters_thorough", workers=16, timeout=3000)
     beh.sort(key=lambda b: (len(b["pts"]), b["pts"], b["knees"]))
+    # 16 workers print concurrently: every terminal state must have produced one parsable line
+    # (states of a behaviour: initial + one per loop iteration + done)
+    want = sum(2 + max(0, len(b["knees"]) - 1) for b in beh)
+    if want != ctx.tlc_runs[-1]["distinct_states"]:
+        raise tlc.TLCFailure("generator output incomplete: %d behaviours account for %d states, TLC found %d"
+                             % (len(beh), want, ctx.tlc_runs[-1]["distinct_states"]))
     ctx.exhaustive = True
     res = par.pmap(_replay_line, beh)
     seen = {}
